@@ -95,10 +95,16 @@ import copy as _copy
 from pyvc.contracts import REGISTRY as _REG
 for _c in list(_REG):
     if _c.name in ('C14/pn53x.command',):
-        _c2 = _copy.copy(_c)
-        _c2.prop = 'C13'
-        _c2.name = 'C13/host.' + _c.name.split('/', 1)[1]
-        _REG.append(_c2)
+        # ... and of C12/C04 ("for any command and response size", "no frame exceeds ..."): an ISO-DEP block or NFC-DEP
+        # frame of any size the protocol layers hand down must come out as a well-formed host frame
+        for _prop in ('C13', 'C12', 'C04'):
+            _c2 = _copy.copy(_c)
+            _c2.prop = _prop
+            _c2.name = _prop + '/host.' + _c.name.split('/', 1)[1]
+            # as for C13/C14 themselves: the log arguments of the host-link functions are not evaluated (they index
+            # name tables by the symbolic command code: the paths multiply beyond the budget)
+            _c2.hooks = dict(_c.hooks or {}, eval_log_args=False)
+            _REG.append(_c2)
 
 
 # the serial bring-up of a PN532 writes hand-built frames (GetFirmwareVersion, SAMConfiguration, SetSerialBaudrate
